@@ -395,6 +395,21 @@ func r8pairs(c *core.Ctx, m *nasModel) {
 	}
 	okCanon := strings.HasPrefix(best, "for buffer.Len() > 0 {") && strings.Contains(best, "binary.Read(buffer, binary.BigEndian, &ieiN)") &&
 		strings.Contains(best, "if ieiN >= 0x80 {tmpIeiN=(ieiN & 0xf0) >> 4} else {tmpIeiN=ieiN}") && strings.HasSuffix(best, "switch tmpIeiN }")
+	if !okCanon && strings.HasPrefix(best, "for buffer.Len() > 0 { octet, ") && strings.Contains(best, ":= @helper(buffer); switch ") {
+		// the preamble is a helper: all decoders of the majority must use the same one, the switch must be on its
+		// second result, and the helper must read one octet r and return (r, r>=0x80 ? r>>4 : r)
+		tag := best[strings.Index(best, "octet, ")+7 : strings.Index(best, " := @helper")]
+		fnName := ""
+		same := true
+		for _, n := range loops[best] {
+			if fnName == "" {
+				fnName = m.Msgs[n].LoopFn
+			} else if m.Msgs[n].LoopFn != fnName {
+				same = false
+			}
+		}
+		okCanon = same && strings.HasSuffix(best, "switch "+tag+" }") && ieiHelperOK(c, fnName)
+	}
 	c.Check(okCanon, RL, "nasMessage:canonical-loop", token.NoPos, best, "the common decode loop is not `for buffer.Len() > 0 { read ieiN; normalise half-octet IEIs; switch }`: %s", best)
 	for l, ns := range loops {
 		if l == best {
@@ -513,4 +528,47 @@ func r8fresh(c *core.Ctx) {
 	if n == 0 {
 		c.SoftUndecided("PlainNasEncode: no return of encoded bytes found")
 	}
+}
+
+// ieiHelperOK decides, on the abstract evaluator, that the helper reads exactly one octet r from the
+// buffer and returns (r, t) with t = r>>4 when bit 8 of r is set (half-octet IEI) and t = r otherwise.
+func ieiHelperOK(c *core.Ctx, name string) bool {
+	fn := c.P.Func(pNasM, name)
+	if fn == nil || len(fn.Params) != 1 {
+		return false
+	}
+	ex := core.NewExec()
+	ex.Merge = true
+	reads := 0
+	ex.OnCall = func(ev *core.AEvent, _ *core.AMem) (core.AVal, bool) {
+		if ev.Callee == "encoding/binary.Read" || strings.HasPrefix(ev.Callee, "bytes.Buffer.") {
+			reads++
+		}
+		return core.AVal{}, false
+	}
+	outs, err := ex.Run(fn, core.DefaultArgs(fn), nil)
+	if err != nil || len(outs) != 1 || len(outs[0].Ret) != 2 || len(ex.Unsound) > 0 || reads != 1 {
+		return false
+	}
+	r, t := outs[0].Ret[0], outs[0].Ret[1]
+	if r.K != core.AInt || t.K != core.AInt || len(r.Bits) != 8 || len(t.Bits) != 8 || r.Bits[0].Kind != core.BSrc {
+		return false
+	}
+	src := r.Bits[0].Src
+	if !r.Bits.IsCopy(7, 0, src, 0) || !strings.Contains(src, "@read") {
+		return false
+	}
+	// t.i = r7 ? r.(4+i) : r.i for i < 4;  t.i = r7 ? 0 : r.i for i >= 4
+	top := core.Bit{Kind: core.BSrc, Src: src, Idx: 7}
+	for i := 0; i < 8; i++ {
+		lo := core.Bit{Kind: core.BSrc, Src: src, Idx: i}
+		hi := core.Bit{Kind: core.BZero}
+		if i < 4 {
+			hi = core.Bit{Kind: core.BSrc, Src: src, Idx: 4 + i}
+		}
+		if t.Bits[i] != core.IteBit(top, hi, lo) {
+			return false
+		}
+	}
+	return true
 }
